@@ -853,7 +853,7 @@ func (m *Machine) checkAssert(fr *frame, cond Value, id, msg string, pos string)
 func (m *Machine) violation(id, msg, pos, kind string, model map[string]*big.Int) {
 	v := Violation{ID: id, Msg: msg, Pos: pos, Kind: kind, Model: modelStrings(model),
 		Choices: append([]int{}, m.choices...), Decisions: m.decisionString(), Inputs: append([]inputVar{}, m.inputs...)}
-	v.Extra = map[string]interface{}{"hashes": m.exportHashes(model)}
+	v.Extra = map[string]interface{}{"hashes": m.exportHashes(model), "goroutines": len(m.gs)}
 	v.Stack = m.replayStack()
 	m.lastViolation = &v
 	panic(pathEnd{kind: "violation", msg: id})
